@@ -334,10 +334,14 @@ contract(FR, "replace_outer", {"from_": "ResolvedPos", "to": "ResolvedPos", "sli
          # for a deeply valid document and a payload-valid slice (VALID_IN) the rebuilt node is deeply valid
          ensures=[f"{VALID_IN} ==> dvalid(result)", "result.type == rp_node(from_, depth).type", "result.marks == rp_node(from_, depth).marks",
                   # a deletion shrinks the node by exactly the deleted range
-                  "slice.content.size == 0 ==> result.content.size == rp_node(from_, depth).content.size - (to.pos - from_.pos)"],
+                  "slice.content.size == 0 ==> result.content.size == rp_node(from_, depth).content.size - (to.pos - from_.pos)",
+                  # a closed slice put between two positions of one parent: the node grows by the slice's size minus the range
+                  "slice.open_start == 0 and slice.open_end == 0 and from_.depth == to.depth and all_(depth, from_.depth, lambda k: rp_index(from_, k) == rp_index(to, k))"
+                  " ==> result.content.size == rp_node(from_, depth).content.size - (to.pos - from_.pos) + slice.content.size"],
          decreases="from_.depth - depth",
          calls_func={"replace_outer": [("rp-dvalid", ["from_", "depth"])],
-                     "Fragment.cut": [("rp-at-boundary", ["from_"]), ("rp-at-boundary", ["to"])],
+                     "Fragment.cut": [("rp-at-boundary", ["from_"]), ("rp-at-boundary", ["to"]), ("bidx-unique", ["content.content", "0", "0", "0"]),
+                                      ("same-start", ["from_", "to", "depth"])],
                      "replace_two_way": [("pre-step", ["slice.content.content", "0", "len(slice.content.content)"])],
                      "close": [("rp-dvalid", ["from_", "depth"]), ("rp-at-boundary", ["from_"]), ("rp-at-boundary", ["to"]), ("rp-dvalid", ["from_", "from_.depth"]),
                                ("dvalid-kids", ["rp_node(from_, from_.depth)", "0"])]},
@@ -350,7 +354,9 @@ contract(FR, "replace_outer", {"from_": "ResolvedPos", "to": "ResolvedPos", "sli
          props=P + ["C02"])
 _api.CONTRACTS["replace"].requires = ["rp_node(from_, 0) == rp_node(to, 0)"]
 _api.CONTRACTS["replace"].cases[0]["ensures"] = [f"{VALID_IN} ==> dvalid(result)", "result.type == rp_node(from_, 0).type",
-                                                  "slice.content.size == 0 ==> result.content.size == rp_node(from_, 0).content.size - (to.pos - from_.pos)"]
+                                                  "slice.content.size == 0 ==> result.content.size == rp_node(from_, 0).content.size - (to.pos - from_.pos)",
+                                                  "slice.open_start == 0 and slice.open_end == 0 and from_.depth == to.depth and all_(0, from_.depth, lambda k: rp_index(from_, k) == rp_index(to, k))"
+                                                  " ==> result.content.size == rp_node(from_, 0).content.size - (to.pos - from_.pos) + slice.content.size"]
 _api.CONTRACTS["replace"].may_raise = {"ValueError": "True", "ReplaceError": "True"}
 
 
@@ -384,9 +390,12 @@ contract(FF, "Fragment.cut", {"self": "Fragment", "from_": "int", "to": "opt[int
          requires=["0 <= from_", "to is None or to <= self.size"],
          may_raise={"ValueError": "True"},
          # cutting at child boundaries or inside text children keeps every node deeply valid (no partial non-text node arises)
-         ensures=[f"fvalid({CC}) and at_boundary({CC}, from_) and (to is None or at_boundary({CC}, to)) ==> fvalid(result.content)"],
-         loops={0: dict(invariant=["0 <= i", f"i <= len({CC})", f"pos == pre({CC}, i)", "to <= self.size", "size == pre(result, len(result))",
-                                   f"{VALCUT} ==> fvalid(result)"],
+         ensures=[f"fvalid({CC}) and at_boundary({CC}, from_) and (to is None or at_boundary({CC}, to)) ==> fvalid(result.content)",
+                  # a flat cut holds exactly the tokens of its range
+                  f"at_boundary({CC}, from_) and (to is None or at_boundary({CC}, to)) ==> result.size == max(0, (self.size if to is None else to) - from_)"],
+         loops={0: dict(invariant=["0 <= i", f"i <= len({CC})", f"pos == pre({CC}, i)", "to <= self.size", "size == pre(result, len(result))", "from_ < to",
+                                   f"{VALCUT} ==> fvalid(result)",
+                                   f"at_boundary({CC}, from_) and (old(to) is None or at_boundary({CC}, to)) ==> size == max(0, min(pos, to) - from_)"],
                         decreases=f"len({CC}) - i",
                         calls=[("bidx-unique", [CC, "from_", "i - 1", "0"]), ("bidx-unique", [CC, "to", "i - 1", "0"]),
                                ("pre-concat", ["result[0:len(result) - 1]", "[result[len(result) - 1]]", "1"]),
